@@ -22,7 +22,7 @@ MANIFEST = {
     'level_note': 'Trusts CPython date arithmetic and the oracle pairs (Butcher vs Knuth, Meeus-Julian vs tabular '
                   'definition) which are cross-checked in every run; an oracle disagreement makes the run inconclusive.',
 }
-PLAN = {'quick': {'shards': 1, 'timeout': 300}, 'thorough': {'shards': 1, 'timeout': 600}}
+PLAN = {'quick': {'shards': 1, 'timeout': 1800}, 'thorough': {'shards': 1, 'timeout': 7200}}
 
 INVALID_METHODS = [0, 4, -1, -3, 5, 7, 100, -100, 2 ** 31, 2 ** 64]
 
